@@ -33,3 +33,20 @@ Example a_single_set_comes_back :
   | _ => false
   end = true.
 Proof. vm_compute. reflexivity. Qed.
+
+(** [C06_sender_level_independent_of_creator_cache] on an event that cites TWO power-levels events
+    before its create event (the history of the fixed finding C06-sender-level-creator-cache): with
+    and without a cached creator the sender [@bob:b] gets the level of the power-levels event
+    listed last (50), not the 100 of the stale one. *)
+Definition st_dup : store :=
+  [ create_ev "$c" "@alice:a" 1;
+    member_ev "$ja" "@alice:a" "@alice:a" "join" 2 ["$c"];
+    pl_ev "$p1" "@alice:a" 3 ["$c"; "$ja"] [("@alice:a", 100%Z); ("@bob:b", 100%Z)];
+    member_ev "$jb" "@bob:b" "@bob:b" "join" 5 ["$c"; "$p1"];
+    pl_ev "$p2" "@alice:a" 6 ["$c"; "$ja"; "$p1"] [("@alice:a", 100%Z); ("@bob:b", 50%Z)];
+    ev0 "$x" "m.room.join_rules" "" "@bob:b" 8 ["$p1"; "$p2"; "$c"; "$jb"] ].
+
+Example duplicate_power_levels_slot_same_level_with_and_without_cache :
+  ProofsPower.level_of (power_level_for_sender st_dup None (bytes_of_string "$x")) = Ok 50%Z
+  /\ ProofsPower.level_of (power_level_for_sender st_dup (Some (bytes_of_string "@alice:a")) (bytes_of_string "$x")) = Ok 50%Z.
+Proof. split; vm_compute; reflexivity. Qed.
